@@ -21,11 +21,18 @@ theorem cycle_error_quiet (nth : Nat → Option Int) (s : Throttler) (t : Int) (
     let o := cycle (.seq nth) s t ⟨.error true, ran, dur, w1, none⟩
     let nd := nextDelay nth (s.src.getD 0) s.last
     o.shouldRun = true ∧ o.escaped = .none_ ∧ o.activated = nd.1 ∧ o.st.activeUntil = none ∧
-    o.st.src = some nd.2 ∧ o.st.last = (match nd.1 with | some d => some d | none => s.last) := by
+    o.st.src = some nd.2 ∧ o.st.last = (match nd.1 with | some d => some d | none => s.last) ∧
+    o.sleep2 = (match nd.1 with | some d => pauseLen d | none => 0) ∧ o.fin = t + dur + o.sleep2 := by
   rw [cycle_inactive _ s t _ h]
   unfold phase2
   simp only [h, Option.isNone_none, Bool.true_or, if_true, Bool.not_true, Bool.false_eq_true, if_false]
-  cases (nextDelay nth (s.src.getD 0) s.last).1 <;> simp [aioSleep_none, h]
+  cases (nextDelay nth (s.src.getD 0) s.last).1 with
+  | none => simp [h]
+  | some d =>
+    have : (aioSleep (t + ↑dur + d - (t + ↑dur)) none).1 = pauseLen d := by
+      have e : t + ↑dur + d - (t + ↑dur) = d := by omega
+      rw [e]; unfold aioSleep pauseLen; split <;> rfl
+    simp [aioSleep_none, h, this]
 
 /-- after the 1st sleep the throttler is either unchanged or merely de-activated -/
 theorem phase1_cases (s : Throttler) (t : Int) (w : Option Nat) :
@@ -35,12 +42,6 @@ theorem phase1_cases (s : Throttler) (t : Int) (w : Option Nat) :
   | none => simp
   | some u => cases h : (aioSleep (u - t) w).2 <;> simp [h]
 
-/-- the throttler after `p` consecutive (uninterrupted) errors under the list configuration `l` -/
-def AfterErrors (l : List Int) (p : Nat) (s : Throttler) : Prop :=
-  s.activeUntil = none ∧
-  ((p = 0 ∧ s.src = none ∧ s.last = none) ∨
-   (0 < p ∧ s.src = some (min p l.length) ∧ s.last = l[min p l.length - 1]?))
-
 theorem afterErrors_fresh (l : List Int) : AfterErrors l 0 Throttler.fresh := by
   simp [AfterErrors, Throttler.fresh]
 
@@ -49,13 +50,20 @@ theorem error_step (l : List Int) (p : Nat) (s : Throttler) (t : Int) (ran : Boo
     (cycle (Delays.ofList l) s t ⟨.error true, ran, dur, w1, none⟩).activated = l[min p (l.length - 1)]? ∧
     AfterErrors l (p + 1) (cycle (Delays.ofList l) s t ⟨.error true, ran, dur, w1, none⟩).st ∧
     (cycle (Delays.ofList l) s t ⟨.error true, ran, dur, w1, none⟩).shouldRun = true ∧
-    (cycle (Delays.ofList l) s t ⟨.error true, ran, dur, w1, none⟩).escaped = .none_ := by
+    (cycle (Delays.ofList l) s t ⟨.error true, ran, dur, w1, none⟩).escaped = .none_ ∧
+    (cycle (Delays.ofList l) s t ⟨.error true, ran, dur, w1, none⟩).sleep2 =
+      (match l[min p (l.length - 1)]? with | some d => pauseLen d | none => 0) ∧
+    (cycle (Delays.ofList l) s t ⟨.error true, ran, dur, w1, none⟩).fin =
+      t + dur + (cycle (Delays.ofList l) s t ⟨.error true, ran, dur, w1, none⟩).sleep2 := by
   obtain ⟨hau, hs⟩ := h
   have hq := cycle_error_quiet (fun i => l[i]?) s t ran dur w1 hau
   simp only [Delays.ofList] at *
-  obtain ⟨h1, h2, h3, h4, h5, h6⟩ := hq
-  refine ⟨?_, ⟨h4, ?_⟩, h1, h2⟩
-  · rw [h3]
+  obtain ⟨h1, h2, h3, h4, h5, h6, h7, h8⟩ := hq
+  have hact : (cycle (Delays.seq fun i => l[i]?) s t ⟨.error true, ran, dur, w1, none⟩).activated
+      = l[min p (l.length - 1)]? := ?hact
+  refine ⟨hact, ⟨h4, ?_⟩, h1, h2, by rw [h7, ← h3, hact], h8⟩
+  case hact =>
+    rw [h3]
     rcases hs with ⟨hp, hsrc, hlast⟩ | ⟨hp, hsrc, hlast⟩
     · subst hp
       simp only [hsrc, hlast, Option.getD_none, nextDelay]
